@@ -109,7 +109,11 @@ def gen_level(rng, cfg, ns, locales, default, depth, prefix, fk_pool, nodes=None
                 if r < cfg.p_absent + cfg.p_null:
                     trees[l].append([name, {"k": "null"}])
                     continue
-                if rng.random() < cfg.mix_kinds:
+                if rng.random() < getattr(cfg, "p_lit_mix", 0.05):
+                    # a bare number / boolean where other locales interpolate (or write a string): legal, the key keeps the
+                    # union of the other locales' arguments and this locale renders the literal
+                    node = gen.gen_value(rng, GenCfg(**{**cfg.__dict__, "p_range": 0, "p_plural": 0, "p_lit_other": 1.0}))
+                elif rng.random() < cfg.mix_kinds:
                     # own kind, as long as count typing stays consistent across locales
                     choice = rng.random()
                     if ck is not None and choice < 0.5:
